@@ -75,7 +75,6 @@ CLAIMS.update({
     'C07': _e2e('Partial-reliability scenarios: a message that was not delivered must be one the sender told the peer to skip (stream entry or cumulative point of a FORWARD-TSN / I-FORWARD-TSN); everything else is delivered.'),
     'C08': _e2e('Graceful shutdown with data still queued, one-sided and crossed, under faults: Shutdown()==nil implies all earlier writes read in order before EOF; both sides closed; late writes/OpenStream rejected and never delivered.'),
     'C09': _e2e('Close / Abort / transport read failure / write failure injected right after the k-th wire event of runs that go through handshake, transfer, stream reset and shutdown, with callers parked in Connect, Accept, Read, Write, Shutdown: everything returns, no goroutine of the package survives, no write to a closed conn, Close idempotent, ABORT cause reaches the peer.'),
-    'C14': _e2e('Stream close by the writer then by the reader, re-open of the same identifier for up to 3 incarnations, several streams at once, under loss/duplication/reordering of DATA and RECONFIG: all messages then EOF per incarnation.'),
     'C18': _e2e('API-contract programs: oversize / empty / closed-stream writes, blocking writes with deadlines, short read buffers (message stays available), read deadlines expiring with no data; rejected calls are invisible in the peer read history; blocking-write gate checked white-box.'),
 })
 
@@ -244,8 +243,8 @@ CLAIMS['C08'] = {
             'Stream.WriteSCTP / ReadSCTP), for EVERY interleaving of writes on any stream, Shutdown calls on either or both sides, write-loop passes '
             'with ANY choice of DATA chunks to send or retransmit (cwnd / rwnd / MTU bundling / burst budget / T3, fast-retransmit and RACK marks / stream '
             'scheduler are an input of the pass, quantified over), deliveries of ANY packet ever sent (loss, duplication, reordering, delay, stale replay of '
-            'DATA, SACK, SHUTDOWN, SHUTDOWN-ACK, SHUTDOWN-COMPLETE), T2 / T3 / delayed-ack expiries, reads and transport failures: '
-            '(1) C08_shutdown_ok_implies_delivered_partial (+ C08_shutdown_nil_on_transport_failure_witness): if Shutdown has returned nil and the local transport did not fail, every message accepted before the call '
+            'DATA, SACK, SHUTDOWN, SHUTDOWN-ACK, SHUTDOWN-COMPLETE), T2 / T3 / delayed-ack expiries, reads, transport failures, Close and Abort: '
+            '(1) C08_shutdown_ok_implies_delivered (full since the fix of D22; + C08_d22_transport_failure_reports_error, C08_interrupted_shutdown_reports_error: transport failure / Close / Abort during a waiting call give the error): if Shutdown has returned nil, every message accepted before the call '
             'has been handed to the peer\'s streams, what the peer read from each stream is an in-order prefix of what was written to it, and every stream that '
             'reported closure had delivered everything first; (2) C08_no_write_after_shutdown: once a Shutdown call passed its state gate every write is '
             'rejected and queues nothing, OpenStream is refused; (3) C08_shutdown_states_drained: SHUTDOWN-SENT / SHUTDOWN-ACK-SENT only with nothing queued '
@@ -260,9 +259,8 @@ CLAIMS['C08'] = {
             'shutdown scenarios with real loops and timers under seeded fault schedules.',
     'note': NOTE_COMMON + ' Model abstractions: one DATA chunk per message (<= 1100 bytes in the harness); TSNs / ack points as offsets from the initial TSN '
             '(wrap-around is C16); which chunks a pass sends is an input checked for well-formedness only (in the replay it is read off the packets the real code '
-            'emitted); receive buffer never full and streams pre-opened; ackMode normal; no ABORT / RECONFIG / FORWARD-TSN / HEARTBEAT traffic. '
-            'Hypothesis of (1): the transport under the caller did not fail - Shutdown also returns nil when closeWriteLoopCh closes because the local read loop '
-            'ended (DESIGN C08 Partial; witness corpus/C08/known/sd_shutdown_nil_on_local_transport_failure.ops). Liveness is proved for the explicit schedules '
+            'emitted); receive buffer never full and streams pre-opened; ackMode normal; ABORT only as sent by Abort(); no RECONFIG / FORWARD-TSN / HEARTBEAT traffic. '
+            'D22 (Shutdown returned nil on local transport failure / Close / Abort with data still queued) was found with this model and is fixed in /repo; witnesses corpus/C08/sd_d22_*.ops, sd_close_and_abort_during_shutdown.ops. Liveness is proved for the explicit schedules '
             'named, not for arbitrary fair schedules; blocking of the Shutdown caller and real goroutine interleavings are sampled (synctest), not enumerated.',
     'technique': 'Lean 4 proof (inductive invariant over all op lists of a two-endpoint + packet-history model; induction over rounds for liveness) '
                  '+ model/implementation differential replay + executable predicate on implementation outputs + e2e scenarios',
@@ -363,6 +361,34 @@ if 'C03' in CLAIMS:
         'acknowledgement (C03_stale_fwdtsn_acked); C03_zero_length_abort; C03_data_ignored_outside_receive_states. On the real association: every packet under recover(), rejected packets and '
         'packets in non-receiving states leave the state line unchanged.')
     CLAIMS['C03']['note'] += RECV_NOTE
+CLAIMS.update({
+    'C14': {
+        'text': 'Proved in Lean on the L0 model Rs of outgoing stream reset between two established associations (mirrors Stream.Close / WriteSCTP / ReadSCTP / '
+                'onInboundStreamReset, OpenStream / getOrCreateStream, sendResetRequest, the end-of-stream marker in popPendingDataChunksToSend, '
+                'gatherOutboundDataAndReconfigPackets, handleData / handlePeerLastTSNAndAcknowledgement, handleReconfigParam, resetStreamsIfAny, '
+                'resetOutgoingStreamSequenceNumbers, T-reconfig expiry; two endpoints + the history of every packet each side ever sent, stream objects addressed by '
+                'handle), for EVERY operation list (application calls on any handle, write-loop passes with any admissible pending-queue selection and any '
+                'retransmissions, delivery of any old packet to the other side = loss / duplication / reordering / stale replay, timer expiry): '
+                'C14_eof_after_data (a reader that was given EOF has been handed every message its partner object wrote — ordered ones in order — and the partner was closed; '
+                'for identifiers the applications re-open only after both directions were reset), C14_marker_after_data, C14_deferred_until_cum, '
+                'C14_received_stay_readable / C14_reset_keeps_queues / C14_read_before_error (no inbound packet removes a queued message; Read serves the queue before EOF), '
+                'C14_duplicate_request_harmless (D10: a request whose number was performed is answered and changes nothing else), C14_late_response_harmless (D16: a response never '
+                'touches an open stream), C14_reopen_fresh / C14_numbering_from_zero / C14_no_mixing (a re-opened identifier starts from 0 on both sides and never receives '
+                'chunks of another incarnation), and on the exact model of rememberPerformedReset (uint32, serial compare, trimming): C14_performed_recent_remembered, '
+                'C14_performed_newest_is_max, C14_performed_only_remembered (+ C16_performed_set_shift_invariant). The model is replayed line by line against two REAL '
+                'associations driven single-threaded under testing/synctest (TestVerifReset: loss, duplication, reordering, stale replays of DATA / SACK / RECONFIG, both ends '
+                'closing at once, several streams, request before its data, lost response + T-reconfig, scripted D10 / D16, thousands of rememberPerformedReset calls as shift pairs); '
+                'the predicate P_C14 (MIX / DUP / ORDER / EOF / SEQ / REMEMBER / SHIFT) is evaluated on the implementation outputs. Plus the e2e reset scenarios (exploration).',
+        'note': NOTE_COMMON + ' Model abstractions (quantified over in the theorems, recorded from the real code by the harness): which pending entries leave the queue in one '
+                'gatherOutbound call and which sent chunks are retransmitted (congestion control, RACK, T3 are inputs), whether a SACK is due. TSN / RSN / SSN / MID are natural '
+                'numbers (no wrap: C16), messages are unfragmented, the receive buffer is never full, initial TSNs are not 0. The two-endpoint model keeps every performed RSN; '
+                'the exact bookkeeping (trim to newest-1024 above 2048 entries) is modelled and proved separately and the driver flags a run in which the two disagree. '
+                'C14_eof_after_data judges an identifier only while the applications re-open it in states where both directions were reset (Sys.quiet: in neither stream table, no object '
+                'open, no marker queued, every request naming it performed); pion offers the application no signal for that — see the observation in DESIGN §5 C14 (crossed close + early re-open loses data).',
+        'technique': 'Lean 4 proof (local send/receive invariants, cross-endpoint invariant over packet histories, incarnation bookkeeping; induction over arbitrary op lists) + '
+                     'model/implementation differential replay of two direct-driven real Associations + executable predicate on implementation outputs + e2e exploration',
+    },
+})
 
 _PENDING = 'check not built yet in this round (planned, see DESIGN.md §5/§8); not claimed until its theorems and correspondence run'
 NOT_APPLICABLE = {p: _PENDING for p in ['C%02d' % i for i in range(1, 21)] if p not in CLAIMS}
